@@ -157,3 +157,44 @@ def c11(ctx, t0):
         'histories are recorded at the client boundary (call before invoking, return after the reply) with one monotonic clock',
         'porcupine v1.3.0 decides linearizability of each recorded history against the sequential model in go/ovl/c11_test.go; a checker timeout is inconclusive',
         'schedules are steered (few users, many clients, delay failpoints) not controlled; the evidence reports how often the targeted upgrade-after-update pattern was reached'], floors, t0)
+
+
+@plan('C08')
+def c08(ctx, t0):
+    import sc_checks
+    res = []
+    if want(ctx, 'crash'):
+        res.append(sc_checks.c08_stage(ctx))
+    if want(ctx, 'readers'):
+        hx = ctx.build_hx()
+        res.append(ctx.run_child('readers', [hx, 'c08readers'], T(ctx, 300, 1800)))
+    floors = {'kill_boundaries_hit': (counters(res, 'kill_boundaries_hit'), 60), 'model_states_distinct': (counters(res, 'model_states_distinct'), 60),
+              'kill_states_matching_model': (counters(res, 'kill_states_matching_model'), 60), 'reader_observations': (counters(res, 'reader_observations'), 1000)}
+    return finish(ctx, 'fault_enumeration', res, COMMON_ASSUME + [
+        'power-loss model as stated in the property: file data durable after fsync(file), directory entry changes durable after fsync(dir), rename atomic; a cross-directory rename is modelled as two independently losable entry operations',
+        'kills land on syscall boundaries (strace injects SIGKILL on syscall entry); kill points inside a syscall and torn sector writes are not observable',
+        'the simulator is cross-checked: its nothing-lost state at every boundary must equal the real post-kill directory'], floors, t0)
+
+
+@plan('C09')
+def c09(ctx, t0):
+    import sc_checks
+    res = []
+    if want(ctx, 'durability'):
+        res.append(sc_checks.c09_stage(ctx))
+    floors = {'scenarios': (counters(res, 'scenarios'), 8), 'post_ack_states': (counters(res, 'post_ack_states'), 8), 'ordering_obligations': (counters(res, 'ordering_obligations'), 8)}
+    return finish(ctx, 'fault_enumeration', res, COMMON_ASSUME + [
+        'persistence model as stated in the property (fsync(file) for data, fsync(dir) for entries)',
+        'decided on the syscalls one traced execution of each operation made; other code paths of the same operation are covered by the scenario list only'], floors, t0)
+
+
+@plan('C15')
+def c15(ctx, t0):
+    import sc_checks
+    res = []
+    if want(ctx, 'faults'):
+        res.append(sc_checks.c15_stage(ctx))
+    floors = {'faults_injected': (counters(res, 'faults_injected'), 100), 'readonly_or_failing_calls': (counters(res, 'readonly_or_failing_calls'), 10)}
+    return finish(ctx, 'fault_enumeration', res, COMMON_ASSUME + [
+        'faults are single syscall failures injected by strace at the syscall boundary (the syscall is not executed); multi-fault sequences are not explored',
+        'errno set per syscall: ENOSPC/EIO/EACCES/EMFILE as applicable'], floors, t0)
